@@ -5,6 +5,7 @@ import tpcommon as T
 from engine import Op, set_mode
 
 PROP = "C06"
+QUICK_BOOST = 2
 LEAN_MODULES = ["IsoDT.Props.C06", "IsoDT.Props.C06b", "IsoDT.Props.C02q"]
 RULE = ("source points (3 representations, any offset, 24:00) x destination offsets from the boundary list and "
         "uniform in -99:59..+99:59 (thorough: all 199 x 119 sign-consistent (h, m) pairs); zone-bearing dump "
@@ -23,6 +24,9 @@ class ToTZ(Op):
         for _ in range(n):
             m = gens.mode(rng)
             yield (m, T.gen_tp(rng, m)) + gens.offset(rng)
+        for _ in range(n // 3):      # across year boundaries (years 0, +-1, leap / century years, 9999 -> 10000)
+            m = gens.mode(rng)
+            yield (m, T.gen_year_edge_tp(rng, m)) + gens.offset(rng)
         if tier != "quick":
             alloffs = [(h, mi) for h in range(-99, 100) for mi in range(-59, 60) if oracle.tz_valid(h, mi)]
             for k, (h, mi) in enumerate(gens.shard_filter(alloffs, self.shard)):
